@@ -94,7 +94,48 @@ pub fn c07_stream(tier: &str) -> Value {
             }
         }
     }
-    result("c07_stream", "chronobox_fifo (assumption A-WINNOW)", &format!("all streams of <= {max_elems} elements from 8 word classes, every truncation and cut"), cases, distinct.len() as u64, None)
+    // long runs: the grammar has no bound on the number of back-to-back entries or of blocks (repetition counts hidden in the
+    // combinator wiring are invisible to the short streams above)
+    let ks: Vec<u32> = if tier == "thorough" { (8..=20).collect() } else { vec![8, 12, 15, 16, 17] };
+    for &k in &ks {
+        for n in [(1usize << k) - 1, 1usize << k, (1usize << k) + 1] {
+            for shape in 0..3 {
+                // 0: entries only; 1: a scaler block after every entry (k <= 12 only: 244 bytes each); 2: one block in the middle
+                if shape == 1 && k > 12 { continue; }
+                let mut stream = Vec::with_capacity(n * 4 + 244);
+                for i in 0..n {
+                    if i % 5 == 4 { stream.extend_from_slice(&[(i & 0xff) as u8, ((i >> 8) & 0xff) as u8, ((i >> 16) & 0x7f) as u8, 0xff]); }
+                    else { stream.extend_from_slice(&[((i << 1) & 0xfe) as u8, ((i >> 7) & 0xff) as u8, ((i >> 15) & 0xff) as u8, 0x80 | (i % 59) as u8]); }
+                    if shape == 1 || (shape == 2 && i == n / 2) { stream.extend_from_slice(&block); }
+                }
+                cases += 1;
+                let (exp, consumed) = ex_parse(&stream);
+                let label = format!("run of {n} entries (shape {shape}: 0 entries only, 1 a scaler block after each, 2 one block in the middle)");
+                let wit = json!({"op": "rerun_native", "check": "c07_stream", "failing_case": label});
+                match real_parse(&stream) {
+                    Err(p) => return result("c07_stream", "chronobox_fifo", "long runs", cases, distinct.len() as u64, Some((format!("{label}: panic: {p}"), wit))),
+                    Ok((got, used)) => {
+                        let ok = exp.len() == n && used == consumed && got.len() == exp.len() && got.iter().zip(exp.iter()).all(|(e, w)| entry_matches(e, w));
+                        if !ok {
+                            return result("c07_stream", "chronobox_fifo", "long runs", cases, distinct.len() as u64,
+                                          Some((format!("{label}: real consumed {used} bytes / {} entries, spec consumed {consumed} / {} entries", got.len(), exp.len()), wit)));
+                        }
+                        // fed in two pieces (cut inside a word): same entries, same remainder
+                        let cut = stream.len() / 3 * 1 + 2;
+                        let first = real_parse(&stream[..cut]).unwrap_or((vec![], 0));
+                        let mut buf = stream[first.1..cut].to_vec();
+                        buf.extend_from_slice(&stream[cut..]);
+                        let second = real_parse(&buf).unwrap_or((vec![], 0));
+                        if first.0.len() + second.0.len() != got.len() || first.1 + second.1 != used {
+                            return result("c07_stream", "chronobox_fifo", "long runs", cases, distinct.len() as u64,
+                                          Some((format!("{label}: fed in two pieces gives {} + {} entries, at once {}", first.0.len(), second.0.len(), got.len()), wit)));
+                        }
+                    }
+                }
+            }
+        }
+    }
+    result("c07_stream", "chronobox_fifo (assumption A-WINNOW)", &format!("all streams of <= {max_elems} elements from 8 word classes, every truncation and cut; runs of 2^k-1, 2^k, 2^k+1 entries (k in {ks:?}) without / with interleaved scaler blocks, whole and in two pieces"), cases, distinct.len() as u64, None)
 }
 
 pub fn confirm_fifo(w: &Value) -> Value {
@@ -172,7 +213,7 @@ pub fn c04_enum(tier: &str) -> Value {
         alphabet.push(Spec { dev, chip, flags, id, len });
     } } } } }
     let target = "PwbV2Packet::try_from(Vec<Chunk>) (sort/position/fold leaves of unit pwbchunks)";
-    let bound = format!("every multiset of <= {max_n} chunks over an alphabet of {} chunk shapes, every arrival order", alphabet.len());
+    let bound = format!("every multiset of <= {max_n} chunks over an alphabet of {} chunk shapes, every arrival order; one valid packet cut into equal pieces of every size 1..=64 bytes (in order, reversed, rotated)", alphabet.len());
     let mut cases = 0u64;
     let mut multisets = 0u64;
     let a = alphabet.len();
@@ -223,6 +264,35 @@ pub fn c04_enum(tier: &str) -> Value {
                                 json!({"op": "chunks", "chunks": order.iter().map(|b| to_hex(b)).collect::<Vec<_>>()}))));
         }
     }
+    // the same packet cut into equal pieces of every size (so also sizes that are not a multiple of 4, whose chunks carry padding
+    // bytes on the wire), arriving in order, reversed and rotated: always the packet decoded directly from the bytes
+    let direct = format!("{:?}", PwbV2Packet::try_from(&pkt[..]));
+    for size in 1..=pkt.len() {
+        let pieces: Vec<&[u8]> = pkt.chunks(size).collect();
+        let n = pieces.len();
+        let made: Vec<Vec<u8>> = pieces.iter().enumerate()
+            .map(|(i, pc)| make_chunk(SPEC_PADWING[11].2, 0, (i + 1 == n) as u8, i as u16, pc)).collect();
+        let mut orders: Vec<Vec<usize>> = vec![(0..n).collect(), (0..n).rev().collect()];
+        if n > 2 { orders.push((0..n).map(|i| (i + 1) % n).collect()); }
+        for order in orders {
+            cases += 1;
+            let w = json!({"op": "chunks", "chunks": order.iter().map(|&i| to_hex(&made[i])).collect::<Vec<_>>()});
+            let chunks: Vec<Chunk> = match order.iter().map(|&i| Chunk::try_from(&made[i][..])).collect::<Result<Vec<_>, _>>() {
+                Ok(c) => c,
+                Err(e) => return result("c04_enum", target, &bound, cases, multisets, Some((format!("a valid chunk of {size} payload bytes is rejected: {e}"), w))),
+            };
+            let concat: Vec<u8> = { let mut v: Vec<(u16, Vec<u8>)> = chunks.iter().map(|c| (c.chunk_id(), c.payload().to_vec())).collect(); v.sort(); v.into_iter().flat_map(|x| x.1).collect() };
+            if concat != pkt {
+                return result("c04_enum", target, &bound, cases, multisets, Some((format!("payload() of the chunks of size {size} does not give back the bytes that were cut"), w)));
+            }
+            let r = guarded(|| PwbV2Packet::try_from(chunks));
+            let got = match r { Err(p) => return result("c04_enum", target, &bound, cases, multisets, Some((format!("panic: {p}"), w))), Ok(r) => format!("{r:?}") };
+            if got != direct {
+                return result("c04_enum", target, &bound, cases, multisets,
+                              Some((format!("packet cut into pieces of {size} bytes: reassembly gives {}, the direct decode of the concatenated payloads gives {}", &got[..got.len().min(80)], &direct[..direct.len().min(80)]), w)));
+            }
+        }
+    }
     result("c04_enum", target, &bound, cases, multisets + 1, None)
 }
 /// a small valid PWB v2 payload: one channel sent (readout index 4 = pad 1), 2 samples
@@ -261,7 +331,7 @@ pub fn c08_tables(_tier: &str) -> Value {
     use det::padwing::map::{TpcPadPosition, TpcPwbPosition};
     use det::padwing::{AfterId, BoardId as PwbBoard, PadChannelId};
     let target = "TpcWirePosition::try_new / TpcPadPosition::try_new (lazy_static tables, assumption A-MAPS)";
-    let bound = "all boards x chips x channels at run numbers 2941, 4418, 5000, 10418, 20000 and the simulation run number";
+    let bound = "all boards x chips x channels at run numbers 2941, 4418, 5000, 10418, 20000 and the simulation run number; one pad and one wire per board again with 11 run numbers interleaved (history independence)";
     let mut cases = 0u64;
     let fail = |reason: String, cases: u64| result("c08_tables", target, bound, cases, 0, Some((reason, json!(null))));
     let wires = |run: u32, cases: &mut u64| -> Result<Vec<usize>, String> {
@@ -333,6 +403,39 @@ pub fn c08_tables(_tier: &str) -> Value {
     for run in [0u32, 4417] {
         cases += 1;
         if TpcPadPosition::try_new(run, p0, AfterId::A, PadChannelId::try_from(1).unwrap()).is_ok() { return fail(format!("run {run}: pad map guessed"), cases); }
+    }
+    // a look-up depends on its arguments only, not on the look-ups made before it: one pad / one wire per board, first run by run
+    // (a table), then board by board with the run numbers -- including ones without a map -- interleaved
+    {
+        let runs = [4418u32, 10418, 100, 5000, u32::MAX, 4417, 20000, 4418, 2941, 0, 10418];
+        let pad_at = |run: u32, b: PwbBoard| TpcPadPosition::try_new(run, b, AfterId::B, PadChannelId::try_from(7).unwrap()).ok().map(|p| (usize::from(p.column), usize::from(p.row)));
+        let wire_at = |run: u32, b: A16Board| TpcWirePosition::try_new(run, b, Adc32ChannelId::try_from(5).unwrap()).ok().map(usize::from);
+        let pboards: Vec<PwbBoard> = SPEC_PADWING.iter().filter_map(|(n, _, _)| PwbBoard::try_from(*n).ok()).collect();
+        let wboards: Vec<A16Board> = SPEC_ALPHA16.iter().filter_map(|(n, _)| A16Board::try_from(*n).ok()).collect();
+        let mut ptab = std::collections::HashMap::new();
+        let mut wtab = std::collections::HashMap::new();
+        for &run in &runs {
+            for (i, &b) in pboards.iter().enumerate() { cases += 1; ptab.insert((run, i), pad_at(run, b)); }
+            for (i, &b) in wboards.iter().enumerate() { cases += 1; wtab.insert((run, i), wire_at(run, b)); }
+        }
+        for (i, &b) in pboards.iter().enumerate() {
+            for &run in &runs {
+                cases += 1;
+                let got = pad_at(run, b);
+                if got != ptab[&(run, i)] {
+                    return fail(format!("PadWing board {}: pad of (chip B, channel 7) at run {run} is {:?} when asked run by run and {got:?} right after look-ups of the same board at other run numbers", b.name(), ptab[&(run, i)]), cases);
+                }
+            }
+        }
+        for (i, &b) in wboards.iter().enumerate() {
+            for &run in &runs {
+                cases += 1;
+                let got = wire_at(run, b);
+                if got != wtab[&(run, i)] {
+                    return fail(format!("Alpha16 board {}: wire of channel 5 at run {run} is {:?} when asked run by run and {got:?} right after look-ups of the same board at other run numbers", b.name(), wtab[&(run, i)]), cases);
+                }
+            }
+        }
     }
     // wire <-> pad column geometry: a wire's azimuth lies inside the azimuth span of pad column ((w - 8) mod 256) / 8
     for w in 0..256usize {
